@@ -158,7 +158,7 @@ Definition pc_ok (st : state) (r : reader) : Prop :=
   | RAwait k v rest n' last =>
       r_nread r = n' /\ r_waiting r = None /\ pend_ok (r_log r) (Fut k v :: rest) n' last
   | RDone => r_nread r = S N /\ r_waiting r = None /\ r_log r = vals msgs
-  | RRaised => killed st = true /\ r_waiting r = None
+  | RRaised => killed st = true /\ r_waiting r = None /\ exists a, r_log r = vals (firstn a A)
   end.
 
 Definition readers_ok (st : state) : Prop :=
@@ -198,7 +198,7 @@ Lemma pc_ok_same st st' r r' :
   same_fields r' r -> (killed st = true -> killed st' = true) -> pc_ok st r -> pc_ok st' r'.
 Proof.
   intros (E1 & E2 & E3 & E4) Hk. unfold pc_ok. rewrite E1, E2, E3, E4.
-  destruct (r_pc r); auto. intros [H1 H2]. auto.
+  destruct (r_pc r); auto. intros (H1 & H2 & H3). auto.
 Qed.
 
 Lemma MB_lo_le st : MB st -> min_nread (rds st) <= n_sent st.
@@ -576,7 +576,7 @@ Proof.
   - (* MailboxKilled *)
     split; [|split; [|split]]; simp_st; auto.
     eapply (MB_upd_same st _ i r (rd_set_pc (rd_set_waiting r None) RRaised)); eauto; simp_st; auto.
-    unfold pc_ok. simp_st. auto.
+    unfold pc_ok. simp_st. split; auto. split; auto. exists n. exact Elog.
   - unfold next_ready in Hnr. rewrite Ek, orb_false_r in Hnr.
     set (lo := min_nread (rds st)) in *.
     assert (Hlen : lo + (n_sent st - lo) <= length A) by (rewrite A_length; lia).
@@ -754,5 +754,298 @@ Lemma Inv_reachable drives killer sched st :
   drives <> [] -> run cfg (init cfg drives (source_of msgs) killer nfut) sched = Some st -> Inv st.
 Proof.
   intros Hd Hrun. eapply run_invariant; [| |exact Hrun]; [intros; eapply Inv_step; eauto|apply Inv_init; auto].
+Qed.
+
+(* ---------- delivery safety ---------- *)
+Definition is_prefix (l full : list Z) : Prop := exists rest, full = l ++ rest.
+
+Lemma vals_firstn_prefix a : is_prefix (vals (firstn a A)) (vals msgs).
+Proof. exists (vals (skipn a A)). rewrite <- vals_app, firstn_skipn. symmetry. apply vals_A. Qed.
+
+Lemma pc_ok_prefix st r :
+  pc_ok st r -> is_prefix (r_log r) (vals msgs) /\ (r_pc r = RDone -> r_log r = vals msgs).
+Proof.
+  unfold pc_ok. destruct (r_pc r).
+  - intros (_ & _ & _ & ->). split; [apply vals_firstn_prefix|discriminate].
+  - intros (_ & _ & _ & ->). split; [apply vals_firstn_prefix|discriminate].
+  - intros (_ & _ & (a & _ & _ & _ & -> & _)). split; [apply vals_firstn_prefix|discriminate].
+  - intros (_ & _ & ->). split; auto. exists []. now rewrite app_nil_r.
+  - intros (_ & _ & (a & ->)). split; [apply vals_firstn_prefix|discriminate].
+Qed.
+
+Lemma drives_reachable dm killer sched st :
+  run cfg (init cfg dm (source_of msgs) killer nfut) sched = Some st -> map r_drive (rds st) = dm.
+Proof.
+  intros Hrun. eapply (run_invariant cfg (fun s => map r_drive (rds s) = dm)); [| |exact Hrun].
+  - intros s t s' H Hs. destruct (step_frame _ _ _ _ Hs) as (E & _). congruence.
+  - unfold init. destruct (c_lazy cfg).
+    + cbn [rds]. rewrite map_map. cbn. apply map_id.
+    + destruct (frame_produce (mkState [] 0 false false false (map init_reader dm) SGate false
+                                  (source_of msgs) killer (repeat false nfut))) as (_ & E & _).
+      rewrite E. cbn [rds]. rewrite map_map. cbn. apply map_id.
+Qed.
+
+Theorem delivery_safe dm killer sched st :
+  run cfg (init cfg dm (source_of msgs) killer nfut) sched = Some st ->
+  forall i r, nth_error (rds st) i = Some r ->
+    is_prefix (r_log r) (vals msgs) /\ (r_pc r = RDone -> r_log r = vals msgs).
+Proof.
+  intros Hrun i r Hi.
+  destruct dm as [|d ds] eqn:Ed.
+  - pose proof (drives_reachable _ _ _ _ Hrun) as H. destruct (rds st); [destruct i; discriminate|discriminate].
+  - assert (Hne : d :: ds <> []) by discriminate.
+    destruct (Inv_reachable _ _ _ _ Hne Hrun) as ((_ & _ & HR & _) & _).
+    apply pc_ok_prefix with (st := st). apply (HR _ _ Hi).
+Qed.
+
+(* ---------- deadlock freedom ---------- *)
+Definition valid (dm : list bool) : Prop :=
+  dm <> [] /\
+  (forall c, c_cap cfg = Some c -> 1 <= c) /\
+  (c_lazy cfg = true -> In true dm) /\
+  (forall k v, In (Fut k v) msgs -> k < nfut).
+
+Lemma has_box st n : MB st -> has_msg (box st) n = (min_nread (rds st) <=? n) && (n <? n_sent st).
+Proof.
+  intros HM. pose proof (MB_lo_le _ HM) as Hlo. destruct HM as (HB & HSn & _ & _).
+  unfold box_ok in HB. rewrite HB, has_msg_seg.
+  - replace (min_nread (rds st) + (n_sent st - min_nread (rds st))) with (n_sent st) by lia. reflexivity.
+  - rewrite A_length. lia.
+Qed.
+
+Lemma box_len st : MB st -> length (box st) = n_sent st - min_nread (rds st).
+Proof.
+  intros HM. pose proof (MB_lo_le _ HM) as Hlo. destruct HM as (HB & HSn & _ & _).
+  unfold box_ok in HB. rewrite HB, seg_length; auto. rewrite A_length. lia.
+Qed.
+
+Lemma box_hd st k m t : MB st -> box st = (k, m) :: t -> k = min_nread (rds st).
+Proof. intros (HB & _) E. unfold box_ok in HB. rewrite HB in E. apply seg_hd in E. exact E. Qed.
+
+(* a reader that cannot run is finished or is waiting without having been woken *)
+Lemma reader_class dm st r :
+  valid dm -> length (w_done st) = nfut ->
+  (forall k, k < length (w_done st) -> nth k (w_done st) false = true) ->
+  pc_ok st r -> reader_enabled st r = false ->
+  r_pc r = RDone \/ r_pc r = RRaised \/ exists n, r_pc r = RWait n /\ r_woken r = false.
+Proof.
+  intros (_ & _ & _ & Hfut) Hlen Hw Hpc Hen. unfold reader_enabled, pc_ok in *.
+  destruct (r_pc r) eqn:E; auto; try discriminate.
+  - right. right. eauto.
+  - exfalso. destruct Hpc as (_ & _ & Hp). apply pend_ok_cons in Hp.
+    destruct Hp as (a & _ & _ & Ha & _).
+    assert (Hin : In (Fut k v) msgs).
+    { apply nth_error_In in Ha. unfold A in Ha. apply in_app_or in Ha. destruct Ha as [Ha|Ha]; auto.
+      cbn in Ha. destruct Ha as [Ha|[]]. discriminate. }
+    specialize (Hfut _ _ Hin). unfold fut_done in Hen. rewrite Hw in Hen by lia. discriminate.
+Qed.
+
+Lemma waiter_beyond st i r n :
+  MB st -> killed st = false -> WR st -> nth_error (rds st) i = Some r ->
+  r_pc r = RWait n -> r_woken r = false -> n_sent st <= n /\ r_nread r = n.
+Proof.
+  intros HM Hk HWR Hi Hpc Hw. pose proof (HWR _ _ _ Hi Hpc Hw) as Hnr.
+  unfold next_ready in Hnr. rewrite Hk, orb_false_r, has_box in Hnr by auto.
+  destruct HM as (_ & _ & HR & _). destruct (HR _ _ Hi) as [_ Hok].
+  unfold pc_ok in Hok. rewrite Hpc in Hok. destruct Hok as (En & _).
+  pose proof (min_nread_le _ _ _ Hi) as Hlo. split; auto.
+  apply andb_false_iff in Hnr. destruct Hnr as [H|H].
+  - apply Nat.leb_gt in H. lia.
+  - apply Nat.ltb_ge in H. exact H.
+Qed.
+
+Lemma no_enabled_terminal dm st :
+  valid dm -> Inv st -> W cfg st -> map r_drive (rds st) = dm ->
+  (forall t, enabled st t = false) -> all_terminal st = true.
+Proof.
+  intros Hv HI HW Hdr Hno. pose proof Hv as (Hd & Hcap & Hlz & Hfut).
+  destruct HI as (HM & HS & HF & HWd). pose proof HM as (HB & HSn & HR & Hne).
+  destruct HW as (HWR & HWS & HWG & HGL).
+  assert (Hk : k_pc st = None).
+  { specialize (Hno TK). cbn in Hno. destruct (k_pc st); [discriminate|auto]. }
+  assert (Hw : forall k, k < length (w_done st) -> nth k (w_done st) false = true).
+  { intros k Hk'. specialize (Hno (TW k)). cbn in Hno. destruct (nth_error (w_done st) k) eqn:E.
+    - destruct b; [|discriminate]. apply (nth_error_nth _ _ false) in E. exact E.
+    - apply nth_error_None in E. lia. }
+  assert (Hrd : forall i r, nth_error (rds st) i = Some r ->
+            r_pc r = RDone \/ r_pc r = RRaised \/ exists n, r_pc r = RWait n /\ r_woken r = false).
+  { intros i r Hi. eapply reader_class; eauto.
+    - apply (HR _ _ Hi).
+    - specialize (Hno (TR i)). cbn in Hno. rewrite Hi in Hno. exact Hno. }
+  pose proof (Hno TS) as Hs. cbn [enabled] in Hs. unfold sender_enabled in Hs.
+  (* every reader is finished, and the sender is *)
+  assert (Hfin : (s_pc st = SDone \/ s_pc st = SDead) /\
+                 forall i r, nth_error (rds st) i = Some r -> r_pc r = RDone \/ r_pc r = RRaised).
+  { destruct (killed st) eqn:Ek.
+    - (* killed: nobody can be waiting unwoken *)
+      split.
+      + destruct (s_pc st) eqn:Epc; auto; try discriminate.
+        * specialize (HWG Epc Hs). rewrite can_fetch_killed in HWG; auto. discriminate.
+        * specialize (HWS _ _ _ Epc Hs). rewrite can_write_killed in HWS; auto. discriminate.
+      + intros i r Hi. destruct (Hrd _ _ Hi) as [H|[H|(n & Hpc & Hwk)]]; auto.
+        pose proof (HWR _ _ _ Hi Hpc Hwk) as Hnr. unfold next_ready in Hnr. rewrite Ek, orb_true_r in Hnr.
+        discriminate.
+    - destruct HS as (_ & _ & Hpc).
+      assert (Hreaders_done : n_sent st = S N ->
+                forall i r, nth_error (rds st) i = Some r -> r_pc r = RDone \/ r_pc r = RRaised).
+      { intros Hn i r Hi. destruct (Hrd _ _ Hi) as [H|[H|(n & Hp & Hwk)]]; auto. exfalso.
+        destruct (waiter_beyond _ _ _ _ HM Ek HWR Hi Hp Hwk) as [H1 _].
+        destruct (HR _ _ Hi) as [_ Hok]. unfold pc_ok in Hok. rewrite Hp in Hok. lia. }
+      destruct (s_pc st) eqn:Epc; try discriminate.
+      + (* SGateWait, not woken: can_fetch is false *)
+        exfalso. specialize (HWG Epc Hs). specialize (Hpc Ek). destruct Hpc as [_ HnN].
+        assert (Hlazy : c_lazy cfg = true) by (apply HGL; auto).
+        unfold can_fetch in HWG. rewrite Ek in HWG.
+        assert (Hdrv : existsb Mailbox.drives (rds st) = false ->  False).
+        { intros Hex. specialize (Hlz Hlazy). rewrite <- Hdr in Hlz. apply in_map_iff in Hlz.
+          destruct Hlz as (r & Hrd1 & Hin). apply In_nth_error in Hin. destruct Hin as (i & Hi).
+          assert (Hnd : Mailbox.drives r = false).
+          { destruct (Mailbox.drives r) eqn:E; auto. rewrite <- Hex. symmetry. apply existsb_exists.
+            exists r. split; auto. eapply nth_error_In; eauto. }
+          unfold Mailbox.drives in Hnd. rewrite Hrd1 in Hnd. cbn [andb] in Hnd.
+          destruct (HR _ _ Hi) as [Hle Hok].
+          destruct (Hrd _ _ Hi) as [H|[H|(n & Hp & Hwk)]].
+          - unfold pc_ok in Hok. rewrite H in Hok. destruct Hok as (E1 & _). lia.
+          - unfold pc_ok in Hok. rewrite H in Hok. destruct Hok as (E1 & _). congruence.
+          - unfold pc_ok in Hok. rewrite Hp in Hok. destruct Hok as (_ & _ & E1 & _).
+            rewrite E1 in Hnd. discriminate. }
+        destruct (box st) as [|[lowest m0] t] eqn:Ebox; [apply Hdrv; exact HWG|].
+        destruct (existsb (waits_le lowest) (rds st)) eqn:Ewl; [|apply Hdrv; exact HWG].
+        apply existsb_exists in Ewl. destruct Ewl as (r & Hin & Hwl).
+        apply In_nth_error in Hin. destruct Hin as (i & Hi).
+        unfold waits_le in Hwl. destruct (r_waiting r) as [x|] eqn:Ewait; [|discriminate].
+        apply Nat.leb_le in Hwl.
+        pose proof (box_hd _ _ _ _ HM Ebox) as Hlow.
+        pose proof (box_len _ HM) as Hlen. rewrite Ebox in Hlen. cbn [length] in Hlen.
+        destruct (HR _ _ Hi) as [Hle Hok].
+        destruct (Hrd _ _ Hi) as [H|[H|(n & Hp & Hwk)]].
+        * unfold pc_ok in Hok. rewrite H in Hok. destruct Hok as (_ & E1 & _). congruence.
+        * unfold pc_ok in Hok. rewrite H in Hok. destruct Hok as (_ & E1 & _). congruence.
+        * destruct (waiter_beyond _ _ _ _ HM Ek HWR Hi Hp Hwk) as [H1 H2].
+          unfold pc_ok in Hok. rewrite Hp in Hok. destruct Hok as (_ & _ & E1 & _).
+          assert (x = n) by congruence. subst x.
+          pose proof (min_nread_le _ _ _ Hi). lia.
+      + (* SSendWait, not woken: the box is full *)
+        exfalso. specialize (HWS _ _ _ Epc Hs). unfold can_write in HWS. rewrite Ek, orb_false_r in HWS.
+        unfold room in HWS. destruct (c_cap cfg) as [c|] eqn:Ec; [|discriminate].
+        apply Nat.ltb_ge in HWS. specialize (Hcap _ eq_refl).
+        pose proof (box_len _ HM) as Hlen.
+        destruct (min_nread_in _ Hne) as (j & r & Hj & Hmin).
+        destruct (HR _ _ Hj) as [Hle Hok].
+        destruct (Hrd _ _ Hj) as [H|[H|(n & Hp & Hwk)]].
+        * unfold pc_ok in Hok. rewrite H in Hok. destruct Hok as (E1 & _). lia.
+        * unfold pc_ok in Hok. rewrite H in Hok. destruct Hok as (E1 & _). congruence.
+        * destruct (waiter_beyond _ _ _ _ HM Ek HWR Hj Hp Hwk) as [H1 H2]. lia.
+      + (* SDone *)
+        split; auto. apply Hreaders_done. apply Hpc. exact Ek.
+      + (* SDead *) exfalso. congruence. }
+  destruct Hfin as [Hsd Hrdone].
+  unfold all_terminal. rewrite Hk.
+  assert (E1 : match s_pc st with SDone | SDead => true | _ => false end = true).
+  { destruct Hsd as [->| ->]; reflexivity. }
+  assert (E2 : forallb (fun r => match r_pc r with RDone | RRaised => true | _ => false end) (rds st) = true).
+  { apply forallb_forall. intros r Hin. apply In_nth_error in Hin. destruct Hin as (i & Hi).
+    destruct (Hrdone _ _ Hi) as [->| ->]; reflexivity. }
+  assert (E3 : forallb (fun d : bool => d) (w_done st) = true).
+  { apply forallb_forall. intros d Hin. apply In_nth_error in Hin. destruct Hin as (k & Hk').
+    assert (k < length (w_done st)) by (apply nth_error_Some; congruence).
+    specialize (Hw _ H). apply (nth_error_nth _ _ false) in Hk'. congruence. }
+  rewrite E1, E2, E3. reflexivity.
+Qed.
+
+(* all thread identifiers that can possibly be enabled *)
+Definition tids (st : state) : list tid :=
+  TS :: TK :: map TR (seq 0 (length (rds st))) ++ map TW (seq 0 (length (w_done st))).
+
+Lemma enabled_in_tids st t : enabled st t = true -> In t (tids st).
+Proof.
+  unfold tids. destruct t; cbn [enabled]; intros H.
+  - left; auto.
+  - right. right. apply in_or_app. left. apply in_map. apply in_seq.
+    destruct (nth_error (rds st) i) eqn:E; [|discriminate].
+    assert (i < length (rds st)) by (apply nth_error_Some; congruence). lia.
+  - right. left. auto.
+  - right. right. apply in_or_app. right. apply in_map. apply in_seq.
+    destruct (nth_error (w_done st) k) eqn:E; [|discriminate].
+    assert (k < length (w_done st)) by (apply nth_error_Some; congruence). lia.
+Qed.
+
+Theorem deadlock_free dm killer sched st :
+  valid dm ->
+  run cfg (init cfg dm (source_of msgs) killer nfut) sched = Some st ->
+  (exists t, enabled st t = true) \/ all_terminal st = true.
+Proof.
+  intros Hv Hrun. pose proof Hv as (Hd & _).
+  destruct (existsb (enabled st) (tids st)) eqn:E.
+  - left. apply existsb_exists in E. destruct E as (t & _ & Ht). eauto.
+  - right. eapply no_enabled_terminal; eauto.
+    + eapply Inv_reachable; eauto.
+    + eapply mailbox_no_lost_wakeup_gen; eauto.
+    + eapply drives_reachable; eauto.
+    + intros t. destruct (enabled st t) eqn:Et; auto.
+      assert (existsb (enabled st) (tids st) = true).
+      { apply existsb_exists. exists t. split; auto. apply enabled_in_tids. exact Et. }
+      congruence.
+Qed.
+
+(* ---------- without a killer nothing is ever killed, and the final states are complete ---------- *)
+Lemma not_killed_reachable dm sched st :
+  dm <> [] ->
+  run cfg (init cfg dm (source_of msgs) None nfut) sched = Some st ->
+  Inv st /\ k_pc st = None /\ killed st = false.
+Proof.
+  intros Hd Hrun.
+  eapply (run_invariant cfg (fun s => Inv s /\ k_pc s = None /\ killed s = false)); [| |exact Hrun].
+  - intros s t s' (HI & Hk & Hkl) Hs. split; [eapply Inv_step; eauto|].
+    destruct (step_frame _ _ _ _ Hs) as (_ & _ & Hkp & Hkill).
+    assert (Ht : t <> TK).
+    { intros ->. apply step_inv in Hs. destruct Hs as (up & Hup & _). congruence. }
+    split; [rewrite Hkp; auto|].
+    destruct (killed s') eqn:E; auto. exfalso.
+    destruct (Hkill eq_refl) as [H|[H|(r & H)]]; try congruence.
+    destruct HI as (_ & (_ & _ & Hpc) & _). rewrite H in Hpc. congruence.
+  - split; [apply Inv_init; auto|].
+    unfold init. destruct (c_lazy cfg); [auto|].
+    destruct (frame_produce (mkState [] 0 false false false (map init_reader dm) SGate false
+                                (source_of msgs) None (repeat false nfut))) as (E1 & _ & _ & E4).
+    rewrite E1, E4. auto.
+Qed.
+
+Theorem complete dm sched st :
+  dm <> [] ->
+  run cfg (init cfg dm (source_of msgs) None nfut) sched = Some st ->
+  all_terminal st = true ->
+  closed st = true /\ killed st = false /\
+  forall i r, nth_error (rds st) i = Some r -> r_pc r = RDone /\ r_log r = vals msgs.
+Proof.
+  intros Hd Hrun Hterm.
+  destruct (not_killed_reachable _ _ _ Hd Hrun) as (HI & Hk & Hkl).
+  destruct HI as ((_ & _ & HR & _) & (_ & _ & Hpc) & _).
+  unfold all_terminal in Hterm.
+  apply andb_true_iff in Hterm. destruct Hterm as [Hterm _].
+  apply andb_true_iff in Hterm. destruct Hterm as [Hterm _].
+  apply andb_true_iff in Hterm. destruct Hterm as [Hs Hr].
+  split; [|split; auto].
+  - destruct (s_pc st) eqn:E; try discriminate.
+    + apply Hpc. exact Hkl.
+    + congruence.
+  - intros i r Hi. destruct (HR _ _ Hi) as [_ Hok].
+    assert (Hin : In r (rds st)) by (eapply nth_error_In; eauto).
+    rewrite forallb_forall in Hr. specialize (Hr _ Hin).
+    unfold pc_ok in Hok. destruct (r_pc r) eqn:E; try discriminate.
+    + destruct Hok as (_ & _ & Hl). auto.
+    + destruct Hok as (Hkk & _). congruence.
+Qed.
+
+Theorem maximal_deliver dm sched st :
+  valid dm ->
+  run cfg (init cfg dm (source_of msgs) None nfut) sched = Some st ->
+  (forall t, enabled st t = false) ->
+  forall i r, nth_error (rds st) i = Some r -> r_pc r = RDone /\ r_log r = vals msgs.
+Proof.
+  intros Hv Hrun Hno. pose proof Hv as (Hd & _).
+  destruct (deadlock_free _ _ _ _ Hv Hrun) as [(t & Ht)|Hterm].
+  - rewrite Hno in Ht. discriminate.
+  - destruct (complete _ _ _ Hd Hrun Hterm) as (_ & _ & H). exact H.
 Qed.
 End InOrder.
